@@ -14,8 +14,14 @@ def base_cfg(n_agents, rng, edges, order):
     params = {}
     for i in range(n_agents):
         a_pen, d_pen, w = rng.choice(P), rng.choice(P), rng.choice(W[:4])
-        params[i] = (a_pen, d_pen, w)
+        params[i] = [(a_pen, d_pen, w)]
         comps = [{"type": "action-penalty", "weight": w, "options": {"action_penalty": a_pen, "do_nothing_penalty": d_pen}}]
+        if rng.random() < 0.3:
+            # the same component listed a second time (same options, its own weight): the reward is still the weighted sum of
+            # everything that is listed
+            w2 = rng.choice(W[:4])
+            params[i].append((a_pen, d_pen, w2))
+            comps.append({"type": "action-penalty", "weight": w2, "options": {"action_penalty": a_pen, "do_nothing_penalty": d_pen}})
         for (a, b, ww) in edges:
             if a == i:
                 comps.append({"type": "shared-reward", "weight": ww, "options": {"agent_name": "ag%d" % b}})
@@ -73,9 +79,8 @@ def sharing_case(ck, n, edges, order, steps, coq_in):
         own, cur = {}, {}
         for i in range(n):
             ag = game.agents["ag%d" % i]
-            a_pen, d_pen, w = params[i]
             act = ag.history[-1].action
-            own[i] = Fraction(w) * Fraction(d_pen if act == "do-nothing" else a_pen)
+            own[i] = sum(Fraction(w) * Fraction(d_pen if act == "do-nothing" else a_pen) for (a_pen, d_pen, w) in params[i])
             cur[i] = Fraction(ag.reward_function.current_reward)
             totals[i] += cur[i]
         for i in range(n):
@@ -115,6 +120,7 @@ def component_walk(ck, name, cfg, steps):
     n = env.action_space.n
     state_by_comp = {}
     total = {}
+    removed_any = False
     for st in range(steps):
         if st == 3:
             # a green user's application disappears (as a blue node-application-remove would make it): its next execution is
@@ -124,6 +130,17 @@ def component_walk(ck, name, cfg, steps):
                     if type(comp).__name__ == "GreenAdminDatabaseUnreachablePenalty" and rng.random() < 0.6:
                         try:
                             env.game.simulation.apply_request(world.form_request("node-application-remove", {"node_name": comp.config.node_hostname, "application_name": "database-client"}))
+                        except Exception:
+                            pass
+        if st == 0:
+            # a green user's browser is gone before its first fetch (nothing in its history yet): the failed attempt is a failure
+            for a in env.game.agents.values():
+                for comp, _w in a.reward_function.reward_components:
+                    if type(comp).__name__ == "WebpageUnavailablePenalty" and (rng.random() < 0.5 or not removed_any):
+                        removed_any = True
+                        try:
+                            env.game.simulation.apply_request(world.form_request("node-application-remove", {"node_name": comp.config.node_hostname, "application_name": "web-browser"}))
+                            ck.count("browser-removed-before-first-fetch")
                         except Exception:
                             pass
         obs, reward, term, trunc, info = env.step(rng.randrange(n))
@@ -143,6 +160,24 @@ def component_walk(ck, name, cfg, steps):
                 elif kind == "GreenAdminDatabaseUnreachablePenalty":
                     attempted = h.request == ["network", "node", comp.config.node_hostname, "application", "database-client", "execute"]
                     val = (Fraction(1) if h.response.status == "success" else Fraction(-1)) if attempted else (prev if comp.config.sticky else Fraction(0))
+                elif kind == "WebpageUnavailablePenalty":
+                    attempted = h.request == ["network", "node", comp.config.node_hostname, "application", "web-browser", "execute"]
+                    node = next((x for x in game.simulation.network.nodes.values() if x.config.hostname == comp.config.node_hostname), None)
+                    br = node.software_manager.software.get("web-browser") if node is not None else None
+                    if attempted:
+                        if h.response.status != "success":
+                            val = Fraction(-1)          # the fetch was refused / unreachable / failed: a failure, whatever the history holds
+                        elif br is None or not br.history:
+                            val = Fraction(0)
+                        else:
+                            it = br.history[-1]
+                            loaded = it.status.name == "LOADED"
+                            code = getattr(it.response_code, "value", it.response_code)
+                            val = Fraction(0) if it.status.name == "PENDING" else Fraction(1) if (loaded and code == 200) else Fraction(-1)
+                    elif comp.config.sticky:
+                        val = Fraction(0) if br is None else prev
+                    elif isinstance(getattr(comp, "reward", None), (int, float)):
+                        val = Fraction(comp.reward)
                 elif kind == "DatabaseFileIntegrity":
                     node = next((x for x in game.simulation.network.nodes.values() if x.config.hostname == comp.config.node_hostname), None)
                     val = Fraction(0)
@@ -205,6 +240,9 @@ def run(ck):
             graphs = rng.sample(graphs, 40)
         for es in graphs:
             edges = [(a, b, rng.choice(W)) for (a, b) in es]
+            if edges and rng.random() < 0.2:
+                a, b, _w = rng.choice(edges)
+                edges.append((a, b, rng.choice(W[:4])))      # the same agent's reward shared twice, each entry with its own weight
             orders = list(itertools.permutations(range(n)))
             for order in (orders if (n <= 2 or not ck.quick) else rng.sample(orders, 2)):
                 sharing_case(ck, n, edges, list(order), ck.n(4, 8), coq_in)
